@@ -78,6 +78,8 @@ pub fn spaces(tier: Tier) -> Vec<Space<'static>> {
         acc.evals((n * n) as u64);
         crate::laws::check_total_preorder(&m, n, acc, "compare-laws", &|i| format!("{:?}", d.vals[i]));
     }));
+    let nv = crate::checks::scale::variants().len() as u64;
+    sp.push(Space::new("scale-pairs (big documents and near-copies)", nv, |i, acc| crate::checks::scale::relation_row(i as usize, acc, 0)));
     // text / binary configurations on a subset
     let sub: Vec<usize> = (0..n).filter(|i| d.texts[*i].is_some()).step_by((n / if tier.thorough() { 900 } else { 400 }).max(1)).collect();
     let m = sub.len();
